@@ -50,8 +50,22 @@ func (in *Interp) hexOf(s Str, upper bool) Str {
 	if upper {
 		a = 'A'
 	}
+	// same construction as the table look-up digits[c>>4] in fmt and
+	// encoding/hex, so that both produce identical terms
+	table := "0123456789abcdef"
+	if upper {
+		table = "0123456789ABCDEF"
+	}
+	_ = a
+	base := make([]Value, 16)
+	for i := range base {
+		base[i] = mkConst(8, uint64(table[i]))
+	}
 	digit := func(n *Term) *Term {
-		return tt.Ite(tt.Cmp(OULt, n, mkConst(8, 10)), tt.Bin(OAdd, n, mkConst(8, '0')), tt.Bin(OAdd, n, mkConst(8, a-10)))
+		if n.IsConst() {
+			return base[n.c].(*Term)
+		}
+		return in.symLoad(SymPtr{base: base, idx: tt.Zext(n, 64)}).(*Term)
 	}
 	for i := 0; i < s.Len(); i++ {
 		b := s.At(i)
